@@ -203,6 +203,9 @@ def run(tier, seed):
         # precedents reached through the reference operators
         jobs.append(('refops', [None, 2], 'NoData', ('-',), seed, 5))
         jobs.append(('refops', [None, 2], 'Stored', ('-',), seed, 5))
+        # unbounded ranges which resolve to a single cell
+        jobs.append(('onecell', [None, 5, 'a'], 'NoData', ('-',), seed, 5))
+        jobs.append(('onecell', [None, 5], 'Stored', ('-',), seed, 5))
         jobs.append(('range', W.POOL_QUICK[:3], 'Stored', ('-',), seed, 5, True))
         jobs.append(('range', [2], 'NoData', ('-',), seed, 5, False,
                      [[('A1', 5), ('A2', True), ('A3', None)], [('A3', 'a'), ('A1', 0)]]))
